@@ -136,5 +136,13 @@ chk('C18',
     'symbolic-parameter exploration of subn(); oracle = reference AST transformer + CPython parse',
     'DESIGN.md section 4 C18')
 
-NA['C19'] = ('coercion maps (tree, mode) to a tree through unparse/ast.parse (C code) before any pfst coercion code runs: no integer, character or schedule variable survives '
-             'symbolically, what remains is a finite table judged by the C parser, i.e. enumeration of concrete runs, not a solver question (DESIGN.md section 5)')
+chk('C19',
+    'T1: 17 re-lettering cells: tuple/list/set/dict operands with marker characters in strings and comments are coerced by as_() or by a put that coerces (call arguments, decorators, assignment targets, '
+    'with-items, comprehension ifs, match sequence / mapping); for EVERY Unicode scalar >= U+0080 at the markers the result text and every node position equal the re-lettering of the marker run, which CPython judged. '
+    'P1: 89 operand rows x 42 target modes x {root FST, pure AST, non-root FST} x copy flag (symbolic selection): the result placed in the Python construct that holds such a fragment parses (CPython) to the result tree '
+    'incl. relative positions and is of the requested kind; NAME/NUMBER/STRING tokens equal the operand\'s in order; same-kind root operand returned as is; copy mode / non-root operand untouched also when coercion fails; '
+    'formatted and pure-AST operands coerce to structurally equal results. P2: 11 (container field, natural mode) targets: put_slice(node) == put_slice(node.as_(mode)), C01 on the result, failed put leaves the target unchanged, coerce option symbolic.',
+    'Bounds: the operand / mode / target tables; norm=True. P1/P2 are finite selection through the solver (stated); the solver-heavy part is T1. "Parses in the requested mode" is judged by CPython on the embedding construct, with the '
+    'leniencies pfst documents for its modes (bare yield/walrus/starred/tuple in expression modes, multi-line import names). Outside: operands and modes not in the tables, ExceptHandler / match_case / operator modes (nothing coerces to them).',
+    'symbolic Unicode re-lettering of coercion source surgery (CrossHair+z3); symbolic selection over (operand, mode, form, copy) tables; oracles = CPython parse of the embedding construct, tokenize',
+    'DESIGN.md section 4 C19')
